@@ -67,7 +67,7 @@ func lateCase(idx int, args sim.Args, r *sim.Rand, v *sim.Verdict, root string) 
 		}
 		// (the clock read below is never the gated one: the gate is armed for the quota check only)
 		mu.Lock()
-		if n := len(log); e.Kind == "queue.watcher-wait" && n > 0 && log[n-1].Kind == e.Kind && log[n-1].Args[0] == e.Args[0] && len(e.Args) > 1 && len(log[n-1].Args) > 1 && log[n-1].Args[1] == e.Args[1] && log[n-1].AtMs == clk.Now().Sub(t0).Milliseconds() {
+		if n := len(log); e.Kind == "queue.watcher-wait" && n > 0 && log[n-1].Kind == e.Kind && log[n-1].Args[0] == e.Args[0] && len(e.Args) > 1 && len(log[n-1].Args) > 1 && log[n-1].Args[1] == e.Args[1] && log[n-1].AtMs == clk.Now().Sub(t0).Milliseconds() && e.Args[0] == "0" {
 			mu.Unlock() // the watcher re-arming the same sleep at the same instant (it spins on an expired entry)
 			return
 		}
@@ -120,8 +120,25 @@ func lateCase(idx int, args sim.Args, r *sim.Rand, v *sim.Verdict, root string) 
 		}
 		return false
 	}
+	// a quarter of the cases start after an idle period: the watcher has woken once with nobody on its list and
+	// armed its next sleep before the first request arrives (real wait of about one TTL; watchdog = inconclusive)
+	if idx%4 == 0 {
+		if _, ok := waitEvent(func(s stamped) bool { return s.Kind == "queue.watcher-wait" }, 0, watchdog); ok {
+			first := -1
+			for i, s := range snapshot() {
+				if s.Kind == "queue.watcher-wait" {
+					first = i
+					break
+				}
+			}
+			if _, ok := waitEvent(func(s stamped) bool { return s.Kind == "queue.watcher-wait" }, first+1, time.Duration(scn.TTLS)*time.Second+watchdog); ok {
+				v.Count("late_cases_started_after_an_idle_watcher_wake_up", 1)
+				rp.Kind += "/after-an-idle-period"
+			}
+		}
+	}
 	// the slot of the window goes to a first request (queued, admitted by the next iteration), then 1-2 waiters queue up
-	clk.Set(t0.Add(20 * time.Millisecond))
+	clk.Set(clk.Now().Add(20 * time.Millisecond))
 	firstDone := make(chan bool, 1)
 	go func() {
 		res := env.OnRequest(sim.Txn{ID: prefix + "first", Method: "GET", URL: "a.com/x", Headers: map[string]string{"x-prio": "hi"}})
@@ -251,11 +268,22 @@ func lateCase(idx int, args sim.Args, r *sim.Rand, v *sim.Verdict, root string) 
 	}
 	prevArm := -1
 	arms := 0
+	lastTargetMs := int64(-1)
 	for i, s := range l {
 		switch s.Kind {
 		case "queue.registered":
 			if q := reqs[s.Args[0]]; q != nil && q.reg < 0 {
 				q.reg = i
+			}
+			// the sleep the watcher is in when a request joins its list must end no later than one TTL after that
+			// instant (it armed it at an instant a <= now as min(a + TTL, earliest expiry)), or the newcomer's
+			// verdict waits for a wake-up that has nothing to do with it. Logical: the watcher's own target against
+			// the virtual instant of the registration.
+			if lastTargetMs >= 0 && lastTargetMs > s.AtMs+scn.TTLS*1000+1 {
+				rp.Log = tail(l[:i+1], 30)
+				v.Violate("C06/verdict-late/watcher-asleep-beyond-the-ttl-of-a-new-waiter",
+					fmt.Sprintf("%s joined the watch list at %d ms (TTL %d s) while the TTL watcher sleeps until %d ms: its time-out verdict cannot come before that", strings.TrimPrefix(s.Args[0], prefix), s.AtMs, scn.TTLS, lastTargetMs), rp)
+				return
 			}
 		case "queue.signalled":
 			if q := reqs[s.Args[0]]; q != nil && q.sig == 1<<30 {
@@ -268,6 +296,9 @@ func lateCase(idx int, args sim.Args, r *sim.Rand, v *sim.Verdict, root string) 
 				target, _ = strconv.ParseInt(s.Args[1], 10, 64)
 			}
 			targetMs := (target - t0.UnixNano()) / int64(time.Millisecond)
+			if target != 0 {
+				lastTargetMs = targetMs
+			}
 			if prevArm >= 0 && target != 0 {
 				for id, q := range reqs {
 					// (q.exp is the expiry the watcher holds: creation instant + TTL, in ms since t0; the
